@@ -174,6 +174,9 @@ const NAMES: &[&str] = &[
     "hhq(X) :- hq(X), not q(X). thq(X) :- q(X).", "hq(X) :- q(X), not thq(X).",
 ];
 
+/// the same rule twice (literally, or after simplification) on one side
+const DUP: &[&str] = &["p.", "p. q. q.", "q :- p.", "q :- p. r :- q. r :- q, q.", "q :- p. q :- p.", "p. p. q :- p.", "r :- q. r :- q, 1 = 1. q :- p.", "{p}. {p}. q :- not p. q :- not p.", ":- p. :- p. q.", "q. :- p, p."];
+
 /// the same for propositional programs
 const NAMESP: &[&str] = &["hp :- p.", "p :- hp.", "hp :- not p. tp :- p.", "p :- not tp. tp :- not hp.", "hp :- p, not tp.", "hhp :- hp, not p. thp :- p.", "{hp} :- p. tp :- hp, not not p.", "p :- thp. thp :- not htp. htp :- not p."];
 
@@ -316,7 +319,7 @@ pub fn check_pair(left: &str, right: &str, flag_sets: &[&[&str]], n_interp: usiz
 
 pub fn pairs(deep: bool) -> Vec<(String, String, Vec<&'static [&'static str]>)> {
     let mut out = Vec::new();
-    for group in [PROP, FO, SPECIAL, NAMES, NAMESP] {
+    for group in [PROP, FO, SPECIAL, NAMES, NAMESP, DUP] {
         let n = group.len();
         for i in 0..n {
             let js: Vec<usize> = if deep { (0..n).collect() } else { vec![(i + 1) % n, (i + 5) % n] };
